@@ -42,6 +42,7 @@ def stream(ctx, n, order, tts, positions=None, total=None):
         M = Mgr(ctx, f'sat n={n} order={order} at levels {positions} of {total}', total, full)
     rng = ctx.rng
     undeclared = False
+    tts = [0] + [t for t in tts if t != 0]      # FALSE (and its complement TRUE) always
     for t0 in tts:
         u0 = gen.build_tt(M.s, M.m, t0, list(range(n)))
         if u0 is None:
